@@ -372,6 +372,7 @@ var funcValueVars = map[*types.Var]*types.Func{}
 
 func indexFuncValueVars(pkgs []*packages.Package) {
 	funcValueVars = map[*types.Var]*types.Func{}
+	singleDefExpr = map[*types.Var]ast.Expr{}
 	count := map[*types.Var]int{}
 	for _, pkg := range pkgs {
 		info := pkg.TypesInfo
@@ -388,6 +389,7 @@ func indexFuncValueVars(pkgs []*packages.Package) {
 			if rhs == nil {
 				return
 			}
+			singleDefExpr[v] = rhs
 			var obj types.Object
 			switch r := ast.Unparen(rhs).(type) {
 			case *ast.Ident:
@@ -449,7 +451,16 @@ func indexFuncValueVars(pkgs []*packages.Package) {
 			delete(funcValueVars, v)
 		}
 	}
+	for v := range singleDefExpr {
+		if count[v] != 1 {
+			delete(singleDefExpr, v)
+		}
+	}
 }
+
+// singleDefExpr maps a variable that is assigned exactly once (and whose address is not taken) to the expression
+// it is assigned (set by the loader).
+var singleDefExpr = map[*types.Var]ast.Expr{}
 
 // isCallTo reports whether call is a static call of fn.
 func isCallTo(info *types.Info, call *ast.CallExpr, fn *types.Func) bool {
